@@ -45,6 +45,7 @@ class Subject:
         else:
             self.mc = MetadorContainer(DRIVERS[driver](self.d / "c", "w"))
         self.kept = {}  # path -> MetadorMeta handle kept alive across operations
+        self.donor = None
 
     @property
     def raw(self):
@@ -62,6 +63,15 @@ class Subject:
                 self.mc = MetadorContainer(h5py.File(self.d / "c.h5", "r+"))
             else:
                 self.mc = MetadorContainer(DRIVERS[self.driver](self.d / "c", "r+"))
+
+    def get_donor(self):
+        """A second container (plain h5py driver) holding annotated nodes: source of cross-container copies."""
+        if self.donor is None:
+            (self.d / "donor").mkdir(exist_ok=True)
+            dn = MetadorContainer(h5py.File(self.d / "donor" / "donor.h5", "w"))
+            build_donor(dn)
+            self.donor = dn
+        return self.donor
 
     def meta_handle(self, path, via):
         if via == "kept":
@@ -99,6 +109,9 @@ class Subject:
             elif k == "copy2":
                 _, src, dst, opts = op
                 mc.copy(src, dst, **opts)
+            elif k == "copyfrom":  # source is a node object of ANOTHER container
+                _, dsrc, dst, opts = op
+                mc.copy(self.get_donor()[dsrc], dst, **opts)
             elif k == "copyobj":
                 _, src, dstg, name, opts = op
                 kw = dict(opts)
@@ -122,7 +135,7 @@ class Subject:
         if k in ("meta", "delmeta", "badmeta"):
             self.kept.pop(op[1], None)
             return
-        ps = [E.abspath("/", p) for p in op[1:3] if isinstance(p, str)]
+        ps = [E.abspath("/", p) for p in (op[2:3] if k == "copyfrom" else op[1:3]) if isinstance(p, str)]
         if k == "copyobj" and op[3]:
             ps.append(E.abspath("/", op[2]).rstrip("/") + "/" + op[3])
         for kp in list(self.kept):
@@ -134,7 +147,36 @@ class Subject:
             self.mc.close()
         except Exception:
             pass
+        try:
+            if self.donor is not None:
+                self.donor.close()
+        except Exception:
+            pass
         self.kept.clear()
+
+
+DONOR_META = {"/dg": [("core.dir", (0, 1, 0), 41)], "/dg/dd": [("core.imagefile", (0, 1, 0), 42), ("example.matsci.material", (0, 1, 0), 43)],
+              "/dg/sub": [("core.bib", (0, 1, 0), 44)], "/dg/sub/e": [("fam.leaf", (0, 1, 0), 45)], "/top": [("core.table", (0, 1, 0), 46)]}
+
+
+def build_donor(dn):
+    dn["dg/dd"] = [1, 2, 3]
+    dn["dg/sub/e"] = 5
+    dn["dg/plain"] = "p"
+    dn["top"] = 1
+    dn["dg"].attrs["da"] = 1
+    for p, objs in DONOR_META.items():
+        for name, ver, i in objs:
+            cls = schemas.get(name, ver)
+            dn[p].meta[cls] = cls.parse_obj(F.instance(name, ver, i))
+
+
+def build_donor_plain(f):
+    f["dg/dd"] = [1, 2, 3]
+    f["dg/sub/e"] = 5
+    f["dg/plain"] = "p"
+    f["top"] = 1
+    f["dg"].attrs["da"] = 1
 
 
 # ------------------------------------------------------------------ reference (plain tree + shadow map)
@@ -178,8 +220,29 @@ class Reference:
             return "ok"
         if k == "badmeta":
             return "fail"
+        if k == "copyfrom":
+            _, dsrc, dst, opts = op
+            if set(opts) - {"without_attrs", "without_meta"}:
+                return "fail"
+            if getattr(self, "donor", None) is None:
+                self.donor = h5py.File(Path(self.path).parent / "donor_ref.h5", "w")
+                build_donor_plain(self.donor)
+            try:
+                f.copy(self.donor[dsrc], dst, without_attrs=opts.get("without_attrs", False))
+            except Exception:
+                return "fail"
+            if not opts.get("without_meta", False):
+                d = E.abspath("/", dst)
+                for q, objs in DONOR_META.items():
+                    if E.is_sub(dsrc, q):
+                        for name, ver, i in objs:
+                            rv = tuple(schemas.resolve(name, tuple(ver)).version)
+                            self.shadow.setdefault(d + q[len(dsrc):], {})[name] = (name, rv, i, tuple(ver))
+            return "ok"
         if k == "copy2":
             _, src, dst, opts = op
+            if set(opts) - {"without_attrs", "without_meta"}:
+                return "fail"  # unsupported keyword: must be refused WITHOUT any effect
             try:
                 f.copy(src, dst, without_attrs=opts.get("without_attrs", False))
             except Exception:
@@ -188,6 +251,8 @@ class Reference:
             return "ok"
         if k == "copyobj":
             _, src, dstg, name, opts = op
+            if set(opts) - {"without_attrs", "without_meta"}:
+                return "fail"
             try:
                 kw = {"without_attrs": opts.get("without_attrs", False)}
                 if name is not None:
@@ -224,6 +289,11 @@ class Reference:
     def close(self):
         try:
             self.f.close()
+        except Exception:
+            pass
+        try:
+            if getattr(self, "donor", None) is not None:
+                self.donor.close()
         except Exception:
             pass
 
@@ -270,8 +340,15 @@ class ContGen:
                 opts["without_meta"] = True
             if rng.random() < 0.25:
                 opts["without_attrs"] = True
+            if rng.random() < 0.12:  # a call that must be REJECTED for an unsupported keyword (and have no effect)
+                opts[rng.choice(["shallow", "expand_refs", "bogus"])] = rng.choice([True, False])
             if E.is_sub(E.abspath("/", src), E.abspath("/", dst)):
                 return self.next(ref)
+            if rng.random() < 0.15:
+                # sources: groups and an un-annotated dataset (annotated DATASETS of another container are not copyable:
+                # their metadata group is looked up in the destination container; recorded as observation in DESIGN.md)
+                return ["copyfrom", rng.choice(["/dg", "/dg/sub", "/dg/plain", "/dg"]), dst,
+                        {k: v for k, v in opts.items() if k in ("without_meta", "without_attrs")}]
             return ["copy2", src, dst, opts]
         if r < 0.85:
             src = rng.choice(nodes)
@@ -545,7 +622,8 @@ def run_history(acc, d, driver, seed, nops, monitors, ops=None, record=True, fam
             done.append(op)
             if record:
                 acc.count(f"ops.{E.inner(op)[0]}.{E.st(got)}")
-            if E.st(got) != want and ("vis" in monitors or "status" in monitors or op[0] in ("meta", "delmeta", "badmeta")):
+            if E.st(got) != want and ("vis" in monitors or "status" in monitors or op[0] in ("meta", "delmeta", "badmeta", "copyfrom")
+                                      or (op[0] in ("copy2", "copyobj") and set(op[-1]) - {"without_attrs", "without_meta"})):
                 kind = "accepted" if E.st(got) == "ok" else "rejected"
                 mm = (f"status:{op[0] if op[0] != 'badmeta' else 'badmeta-' + op[2]}:{kind}", f"{op} -> {got}, expected {want}")
                 break
